@@ -55,3 +55,16 @@ package cmp
 //@   ensures @one-of den(result) == den(a) || den(result) == den(b)
 //@   ensures @below den(result) == den(a) ==> nonneg(fsub(den(b), den(a)), bc.absDiffUppBitLen)
 //@   ensures @below-b den(result) == den(b) ==> nonneg(fsub(den(a), den(b)), bc.absDiffUppBitLen)
+
+// ---- generic comparisons
+//@ contract IsEqual
+//@   props C14
+//@   assigns api
+//@   requires api != nil
+//@   ensures @eq den(result) == (den(a) == den(b) ? f1 : f0)
+//@ contract assertBits
+//@   props C14
+//@   assigns api, deep(bits)
+//@   requires api != nil
+//@   ensures @all-bool forall k int :: 0 <= k && k < len(bits) ==> isBool(den(bits[k]))
+//@   loop 1 invariant @bools forall k int :: 0 <= k && k <= rangeindex ==> isBool(den(bits[k]))
